@@ -451,6 +451,8 @@ class Interp(object):
         qual = self.qual_of(fn)
         for key in (qual, ".".join(qual.split(".")[-2:])):
             if key in self.overrides:
+                if isinstance(fn, types.MethodType):      # bound (class)method of a real object: self/cls first
+                    return self.overrides[key](self, [fn.__self__] + list(args), kwargs)
                 return self.overrides[key](self, list(args), kwargs)
         try:
             h = self.model_table.get(fn)
